@@ -91,7 +91,7 @@ def stratified_sample(points, n, rng, key=lambda p: (p["file"], p["qual"])):
     return out
 
 
-KILL_ACTIONS = [["kill", "SIGKILL"], ["kill", "SIGSEGV"], ["kill", "SIGTERM"], ["exit", 3], ["cexit", 5], ["exit", 0]]
+KILL_ACTIONS = [["kill", "SIGKILL"], ["kill", "SIGSEGV"], ["kill", "SIGTERM"], ["exit", 3], ["cexit", 5], ["exit", 0], ["kill", 35], ["exit", 255], ["kill", "SIGUSR1"]]
 
 
 DRIVER_FILES = ("process_executor.py", "reusable_executor.py", "backend/queues.py", "mp/queues.py", "backend/synchronize.py", "mp/util.py",
